@@ -42,20 +42,29 @@ impl Log for QuietLog {
 static LOG: QuietLog = QuietLog;
 static PANIC_MSG: std::sync::Mutex<String> = std::sync::Mutex::new(String::new());
 
-/// index -> (command string, --in-place, --no-copy); same table as drv_K.ml / c12.py
-const TTABLE: [(&str, bool, bool); 11] = [
+/// index -> (command string, Transform.in_place, Transform.copy); same table as drv_K.ml / c12.py
+const TTABLE: [(&str, bool, bool); 13] = [
     ("cat", false, false),
     ("head -c 3", false, false),
     ("tr a-m n-z", false, false),
     ("base64 -w0", false, false),
     ("false", false, false),
     ("vk_failz", false, false),
-    ("sed -i y/abc/xyz/ $IN", false, false),
-    ("sed -i y/abc/xyz/ $IN", true, false),
-    ("cat $IN", false, false),
+    ("sed -i y/abc/xyz/ $IN", false, true),
+    ("sed -i y/abc/xyz/ $IN", true, true),
     ("cat $IN", false, true),
-    ("<none>", false, false),
+    ("cat $IN", false, false), // --no-copy
+    ("<none>", false, true),   // copy forced by hand (before ea68843 the id then read "<none>")
+    ("sed y/abc/xyz/ $IN --in-place", false, true),
+    ("sed y/abc/xyz/ $IN", true, true),
 ];
+
+/// the id FileHasher::new_cached gives the configuration (used for HashCache::open by hand; the real
+/// new_cached is exercised by the HO op, and G after H shows that both name the same tree)
+fn transform_id(i: usize) -> String {
+    let (cmd, in_place, copy) = TTABLE[i];
+    format!("{}\0{}\0{}", cmd, if in_place { "--in-place" } else { "" }, if copy { "" } else { "--no-copy" })
+}
 
 fn algo(i: u64) -> HashFn {
     match i {
@@ -108,11 +117,15 @@ fn reap_zombies() {
 }
 
 fn make_transform(i: usize) -> Transform {
-    let (cmd, in_place, no_copy) = TTABLE[i];
+    let (cmd, in_place, copy) = TTABLE[i];
     let mut t = Transform::new(cmd.to_string(), in_place).expect("Transform::new");
-    if no_copy {
-        t.copy = false;
+    if i == 9 {
+        t.copy = false; // what --no-copy does (config.rs build_transform)
     }
+    if i == 10 {
+        t.copy = true;
+    }
+    assert_eq!(t.copy, copy, "transform table: copy flag of entry {i}");
     t
 }
 
@@ -232,7 +245,8 @@ fn run_seq(scratch: &StdPath, id: &str, ops: &[&str]) -> String {
                 ".".to_string()
             }
             ["O", a, tr] => {
-                let cmd = if *tr == "-" { None } else { Some(TTABLE[tr.parse::<usize>().unwrap()].0) };
+                let id = if *tr == "-" { None } else { Some(transform_id(tr.parse::<usize>().unwrap())) };
+                let cmd = id.as_deref();
                 let mut opened = HashCache::open(&Path::from(&s.cache_dir), cmd, algo(a.parse().unwrap()));
                 let mut tries = 0;
                 while opened.is_err() && tries < 50 {
